@@ -1,4 +1,5 @@
 import WowVerif.Model.Mpq
+import WowVerif.Model.C01Bet
 import WowVerif.Model.Dispatch18b
 namespace Wv.Drv
 open Wv Wv.Mpq
@@ -11,6 +12,16 @@ def fileSpecOfString (s : String) : Option FileSpec :=
   | [n, e, d, us] => do
       let units ← (if us == "-" then some [] else (us.splitOn ",").mapM rleDecode)
       pure { name := ← bytesOfHex n, enc := ← e.toNat?, data := ← rleDecode d, units := units }
+  | _ => none
+
+def rowOfString (s : String) : Option Bet.Row :=
+  match (s.splitOn ",").mapM String.toNat? with
+  | some [p, z, c, f] => some { pos := p, size := z, csize := c, flag := f }
+  | _ => none
+
+def layOfString (s : String) : Option Bet.Lay :=
+  match (s.splitOn ",").mapM String.toNat? with
+  | some [p, z, c, f] => some { wPos := p, wSize := z, wCsize := c, wFlag := f }
   | _ => none
 
 /-- stateful (codec table) -/
@@ -33,6 +44,26 @@ def c01 (codec : Codec) (toks : List String) : Option (Codec × String) :=
       match parseHeader a with
       | some h => pure (codec, s!"hdr={h.headerSize} size={h.archiveSize} ver={h.version} shift={h.shift} hash={h.hashPos}/{h.hashCount} block={h.blockPos}/{h.blockCount}")
       | none => pure (codec, "err header")
+  | ["c01bet", nflags, rows] => do
+      -- the builder's extended block table for these rows: chosen widths and the packed table
+      let rs ← (if rows == "-" then some [] else (rows.splitOn ";").mapM rowOfString)
+      let l := Bet.layoutOf rs (← nflags.toNat?)
+      pure (codec, s!"{l.wPos},{l.wSize},{l.wCsize},{l.wFlag} {hexOrDash (Bet.tableBytes l rs)}")
+  | ["c01betrow", lay, table, i] => do
+      -- the reader on any table bytes with any declared widths
+      let l ← layOfString lay
+      let t ← (if table == "-" then some [] else bytesOfHex table)
+      match Bet.readRow l t (← i.toNat?) with
+      | some r => pure (codec, s!"{r.pos},{r.size},{r.csize},{r.flag}")
+      | none => pure (codec, "none")
+  | ["c01betrow", lay, table, i, nfl] => do
+      -- the same through an identity flag array of `nfl` words (an index past the array reads as flags 0)
+      let l ← layOfString lay
+      let t ← (if table == "-" then some [] else bytesOfHex table)
+      let n ← nfl.toNat?
+      match Bet.readRow l t (← i.toNat?) with
+      | some r => pure (codec, s!"{r.pos},{r.size},{r.csize},{if r.flag < n then r.flag else 0}")
+      | none => pure (codec, "none")
   | "mpqwritetomb" :: conv :: ver :: shift :: hsize :: tombs :: files => do
       let fs ← files.mapM fileSpecOfString
       let ts ← (if tombs == "-" then some [] else (tombs.splitOn ",").mapM bytesOfHex)
